@@ -214,25 +214,11 @@ func incr(n int, Y_i []byte) (Y_ii []byte) {
 	addYone := func(yi, yii []byte) {
 		copy(yii[:], yi[:])
 
-		Len := len(yi)
-		var rc byte = 0x00
-		for i := Len - 1; i >= 0; i-- {
-			if i == Len-1 {
-				if yii[i] < 0xff {
-					yii[i] = yii[i] + 0x01
-					rc = 0x00
-				} else {
-					yii[i] = 0x00
-					rc = 0x01
-				}
-			} else {
-				if yii[i]+rc < 0xff {
-					yii[i] = yii[i] + rc
-					rc = 0x00
-				} else {
-					yii[i] = 0x00
-					rc = 0x01
-				}
+		// inc32: only the last 32 bits are a counter, incremented modulo 2^32
+		for i := len(yi) - 1; i >= len(yi)-4 && i >= 0; i-- {
+			yii[i]++
+			if yii[i] != 0 {
+				break
 			}
 		}
 	}
